@@ -522,6 +522,12 @@ def check_twoiter_status(ctx):
                   "`return %s` can return OK and hide the latched error; facts %s" % (k2, fmt_atoms(atoms)))
     ctx.check(latched >= 1, "T4-iterator-status-read", "twoiter_status:latched", f.name, f.loc,
               "otherwise the latched status is returned", "the latched status is no longer returned")
+    # the latched status is only ever set from OK to an error (by ldb_twoiter_saverr) and initialised once: re-positioning
+    # the iterator must not forget that a block or a file was skipped as unreadable
+    from ..rules import stores_of_field_in_program
+    clears = sorted({f2.name for f2, b, i, e in stores_of_field_in_program(ctx.P, "ldb_twoiter_s", "status") if const_val(e["rhs"]) == 0})
+    ctx.check(clears == ["ldb_twoiter_init"], "T4-iterator-status-read", "twoiter:latched-status-never-cleared", f.name, f.loc,
+              "the latched error is initialised once and never reset", "iter->status is reset to OK in %s" % clears)
     # who may replace the data iterator: only the function that saves the outgoing iterator's status first
     who = sorted({f2.name for f2 in ctx.P.all_functions if f2.file == "src/table/two_level_iterator.c"
                   for b, i, e in f2.events("call") if is_call(e, "ldb_wrapiter_set") and argkey(e, 0) == "&iter->data_iter"})
